@@ -1,5 +1,5 @@
 (* C06 driver.  Request: "<ip|ble|coap> <event> <event> ..." with events
-     S<n>.<cont>  SX<n>.<cont>  W<n>.<cont>.<j>  N  N4  NB  R<i>  O<i>  F<k>  C  X  T  D  RC  RD  EN  ER<i>  EF<k>  EC
+     S<n>.<cont>  SX<n>.<cont>  W<n>.<cont>.<j>  N  N4  NB  R<i>  O<i>  F<k>  C  X  T  D  RC  RD  LD  EN  ER<i>  EF<k>  EC
    (RC and RD are both Reconnect: the model gives every new pair-verify, resumed or full, a new epoch)
    Answer: "seal=e.d.n,...;wire=...;open=e.d.n.ok,...;acc=...;out=e.id.class,..."
    (logs oldest first; out sorted by request number) *)
@@ -9,7 +9,7 @@ let num s from = nat_of_int (int_of_string (Stdlib.String.sub s from (Stdlib.Str
 let ev_of_tok t =
   let len = Stdlib.String.length t in
   if t = "N" then Next else if t = "N4" then Next404 else if t = "NB" then NextBad else if t = "C" then Corrupt else if t = "X" then Cancel
-  else if t = "T" then Timeout else if t = "D" then Disconnect else if t = "RC" || t = "RD" then Reconnect
+  else if t = "T" then Timeout else if t = "D" then Disconnect else if t = "RC" || t = "RD" then Reconnect else if t = "LD" then LateDisc
   else if t = "EN" then ENext else if t = "EC" then ECorrupt
   else if len > 2 && Stdlib.String.sub t 0 2 = "ER" then EReplay (num t 2)
   else if len > 2 && Stdlib.String.sub t 0 2 = "EF" then EFuture (num t 2)
